@@ -4,7 +4,7 @@
    ./check C17 (real MeterProvider, 1..4 readers of mixed temporality, scripted callbacks, real and scripted clock).
    Histories are arbitrary lists of operations; [op_ok] is what the case parser guarantees (reader indices exist, callback
    identities come from the finite universe); the points handed out are compared on the attribute sets of [attrs]. *)
-From V Require Import C17.Glue C17.ProofsReg C17.ProofsBase C17.ProofsSum C17.ProofsGauge C17.ProofsMeets C17.ProofsHist C17.ProofsLv C17.ProofsTop C17.ProofsWire C17.ProofsRace C17.ProofsLts C17.ProofsLtsSpec.
+From V Require Import C17.Glue C17.ProofsReg C17.ProofsBase C17.ProofsSum C17.ProofsGauge C17.ProofsMeets C17.ProofsHist C17.ProofsLv C17.ProofsTop C17.ProofsWire C17.ProofsRace C17.ProofsLts C17.ProofsLtsSpec C17.ProofsLtsCount C17.ProofsLtsCount2.
 Local Open Scope Z_scope.
 
 (* ---- "At each collection by a reader every callback registered on an observable instrument is invoked exactly once":
@@ -243,14 +243,20 @@ Theorem lts_callbacks_never_overlap : forall l st, accepted l = Some st -> foral
 Proof. exact accepted_exclusive. Qed.
 Print Assumptions lts_callbacks_never_overlap.
 
-(* every accepted history passes the clauses removed_never_invoked and no-self-concurrency of the race SPEC.
-   Full statement: ... /\ check_collections (number l) = []  (the count clause: min <= calls <= max per collection and key).
-   PARTIAL: the count clause is carried at state level by lts_pass_calls_every_record_once (the calls of a pass are exactly the
-   list at its lock acquisition); missing is the counting bridge from that list to SpecRace's min / max over the history. *)
-Theorem accepted_trace_meets_spec_race_partial : forall l st,
-  accepted l = Some st -> check_removed (number l) = [] /\ check_exclusive (number l) = [].
-Proof. exact accepted_trace_meets_spec_race_partial_lemma. Qed.
-Print Assumptions accepted_trace_meets_spec_race_partial.
+(* "every registered callback exactly once per collection", for every interleaving: in every collection (begin b, end e) the number
+   of calls of k lies between the registrations certainly present throughout [b, e] and those possibly present (SpecRace.v) *)
+Theorem lts_collection_counts : forall l st, accepted l = Some st -> forall b t r e k,
+  nth_error l b = Some (EBC t r) -> ret_of (number l) b (is_ec t r) = Some e ->
+  (min_calls (number l) k b e <= calls_in (number l) t k b e)%nat /\ (calls_in (number l) t k b e <= max_calls (number l) k b e)%nat.
+Proof. exact accepted_collection_counts. Qed.
+Print Assumptions lts_collection_counts.
+
+(* every accepted history passes all clauses of the race SPEC about calls (the remaining clauses of spec_race are about the run
+   having finished and the history matching the script of the case) *)
+Theorem accepted_trace_meets_spec_race : forall l st,
+  accepted l = Some st -> check_removed (number l) ++ check_collections (number l) ++ check_exclusive (number l) = [].
+Proof. exact accepted_trace_meets_spec_race_lemma. Qed.
+Print Assumptions accepted_trace_meets_spec_race.
 
 (* non-vacuity: an accepted interleaving in which RemoveCallback waits for the running pass (and passes all three clauses);
    histories in which the removal takes the lock during the pass, the pass unlocks early (seeded C17_e), or a removed callback is
